@@ -132,6 +132,7 @@ macro_rules! table_harness {
 		#[kani::proof]
 		#[kani::solver(kissat)]
 		$(#[$m])*
+		#[kani::stub(crate::file::TableFile::read_at, stub_read_at)]
 		#[kani::stub(crate::log::LogWriter::insert_value, stub_insert_value)]
 		#[kani::stub(<crate::log::LogWriter as crate::log::LogQuery>::value, stub_value)]
 		#[kani::stub(<crate::log::LogWriter as crate::log::LogQuery>::value_ref, stub_value_ref)]
@@ -867,6 +868,70 @@ fn b_u14_remove_chain() {
 	let exp = if tq < 2 { 0xff } else { (prev[s] >> (8 * (tq as u32 - 2))) as u8 };
 	assert!(unsafe { REC_DATA[s][tq] } == exp, "U14.remove_chain.free_list_links");
 	assert!(t.last_removed.load(Ordering::Relaxed) == 2, "U14.remove_chain.head_is_last_part");
+}
+
+
+// ================================================================== U14b: in-memory mirror of the free list (multitree columns)
+pub(crate) fn stub_read_at(_f: &crate::file::TableFile, buf: &mut [u8], offset: u64) -> Result<()> {
+	// contract of TableFile::read_at: plain byte copy from the file; the file content is the ghost view (48-byte slots)
+	unsafe {
+		let i = (offset / 48) as usize;
+		assert!(i < NSLOT && VIEW_PRESENT[i], "verif: read of a slot the harness did not provide");
+		let len = if buf.len() < VIEW_LEN[i] { buf.len() } else { VIEW_LEN[i] };
+		buf[0..len].copy_from_slice(&slot(i)[0..len]);
+	}
+	Ok(())
+}
+fn b_u14_free_entries_mirror() {
+	// on-disk free list 3 -> 1 -> 4 -> end, fill mark 6
+	ghost_reset();
+	view_put(3, tombstone_entry(1), 10);
+	view_put(1, tombstone_entry(4), 10);
+	view_put(4, tombstone_entry(0), 10);
+	let mut t = mk_table(48, false, false, 6, 3);
+	t.needs_free_entries = true;
+	assert!(ok(t.init_table_data()).is_some(), "U14.init_table_data.no_error");
+	{
+		let fe = t.free_entries.as_ref().expect("free entries built").read();
+		// the stack mirrors the list with the head on top: popping it yields the slots in list order
+		assert!(fe.stack.len() == 3, "U14.init_table_data.every_free_slot_once");
+		assert!(fe.stack[2] == 3 && fe.stack[1] == 1 && fe.stack[0] == 4, "U14.init_table_data.stack_top_is_list_head_in_list_order");
+	}
+	// claiming hands out the list head first, then follows the list, then extends the fill mark
+	let r = ok(t.claim_entries(4));
+	match r {
+		Some(v) => {
+			assert!(v.len() == 4 && v[0] == 3 && v[1] == 1 && v[2] == 4 && v[3] == 6, "U14.claim_entries.free_list_order_then_fill_mark");
+		},
+		None => assert!(false, "U14.claim_entries.no_error"),
+	}
+	assert!(t.last_removed.load(Ordering::Relaxed) == 0 && t.filled.load(Ordering::Relaxed) == 7, "U14.claim_entries.head_and_fill_mark_updated");
+	assert!(t.dirty_header.load(Ordering::Relaxed), "U14.claim_entries.header_marked_dirty");
+	std::mem::forget(t);
+}
+fn b_u14_free_entries_partial_claim() {
+	ghost_reset();
+	view_put(3, tombstone_entry(1), 10);
+	view_put(1, tombstone_entry(0), 10);
+	let mut t = mk_table(48, false, false, 6, 3);
+	t.needs_free_entries = true;
+	assert!(ok(t.init_table_data()).is_some());
+	let r = ok(t.claim_entries(1));
+	assert!(matches!(&r, Some(v) if v.len() == 1 && v[0] == 3), "U14.claim_entries.takes_list_head");
+	// the in-memory head now equals the link stored in the claimed slot (what the on-disk list says)
+	assert!(t.last_removed.load(Ordering::Relaxed) == 1, "U14.claim_entries.new_head_is_the_link_of_the_claimed_slot");
+	assert!(t.filled.load(Ordering::Relaxed) == 6);
+	// a slot freed afterwards goes on top of both mirrors
+	let overlays: &'static RwLock<LogOverlays> = Box::leak(Box::new(RwLock::new(LogOverlays::with_columns(0))));
+	let w: &'static mut LogWriter<'static> = Box::leak(Box::new(LogWriter::new(overlays, 9)));
+	assert!(ok(t.clear_slot(5, &mut *w)).is_some());
+	{
+		let fe = t.free_entries.as_ref().unwrap().read();
+		assert!(fe.stack.len() == 2 && fe.stack[1] == 5 && fe.stack[0] == 1, "U14.clear_slot.mirror_pushes_freed_slot");
+	}
+	assert!(t.last_removed.load(Ordering::Relaxed) == 5);
+	std::mem::forget(r);
+	std::mem::forget(t);
 }
 
 // ================================================================== U9 (value table): validation vs application of log records
